@@ -187,8 +187,14 @@ pub fn run_choices_isolated(cfg: &ChoiceRun) -> IsolatedResult {
     let mut printed = std::collections::BTreeSet::new();
     for (result, death, known_lines) in outcomes {
         for l in known_lines {
-            if printed.insert(l.clone()) {
-                println!("{l}");
+            // announce through the shared table so that a finding is printed once per run
+            match l.rsplit_once("[key=").map(|(_, k)| k.trim_end_matches(']').to_owned()) {
+                Some(k) if cfg.known.is_listed_known(cfg.pid, &k) => cfg.known.announce(cfg.pid, &k),
+                _ => {
+                    if printed.insert(l.clone()) {
+                        println!("{l}");
+                    }
+                }
             }
         }
         if let Some(r) = result {
